@@ -14,6 +14,8 @@ CONSTANTS
   DevRehashDropsBoundary = FALSE
   DevRebuildDropsLast = FALSE
   DevCsumClearsLeaf = FALSE
+  DevSbCsumRefuses = FALSE
+  DevInodeUninitWipes = FALSE
 INVARIANT TypeOK
 INVARIANT TreeUnchanged
 INVARIANT ExitOK
